@@ -1345,3 +1345,108 @@ pub fn reborrow_mut_captures(block: &mut syn::Block, caps: &[String]) {
     }
     V { caps }.visit_block_mut(block);
 }
+
+// ------------------------------------------------------------------------------------------
+// rule H1: a call of a function the pinned tree does not have (a helper split off by an edit), defined in the same file, is replaced by
+// the helper's body: `{ let (params) = (args); body }`. Only where that is the same program: the helper has no `return`; a `?` in it is
+// accepted only if the call is the tail expression of the calling function (there, leaving the helper with an error and leaving the caller
+// with it are the same thing); an `async fn` helper only where it is awaited on the spot.
+// ------------------------------------------------------------------------------------------
+pub struct Helper { pub sig: syn::Signature, pub block: syn::Block, pub receiver: bool }
+pub fn new_helpers(file: &syn::File, self_head: Option<&str>, baseline: &BTreeSet<String>) -> std::collections::BTreeMap<String, Helper> {
+    let mut out: std::collections::BTreeMap<String, Helper> = Default::default();
+    let mut twice: BTreeSet<String> = BTreeSet::new();
+    let mut add = |sig: &syn::Signature, block: &syn::Block, out: &mut std::collections::BTreeMap<String, Helper>| {
+        let n = sig.ident.to_string();
+        if baseline.contains(&n) { return; }
+        if out.contains_key(&n) { twice.insert(n); return; }
+        let receiver = sig.inputs.iter().any(|a| matches!(a, syn::FnArg::Receiver(_)));
+        out.insert(n, Helper { sig: sig.clone(), block: block.clone(), receiver });
+    };
+    for it in &file.items {
+        match it {
+            syn::Item::Fn(f) => add(&f.sig, &f.block, &mut out),
+            syn::Item::Impl(im) if im.trait_.is_none() => {
+                if let Some(h) = self_head { if crate::type_head(&im.self_ty) != h { continue; } } else { continue; }
+                for ii in &im.items { if let syn::ImplItem::Fn(m) = ii { add(&m.sig, &m.block, &mut out); } }
+            }
+            _ => {}
+        }
+    }
+    for n in twice { out.remove(&n); }
+    out
+}
+fn has_return_or_try(b: &syn::Block) -> (bool, bool) {
+    struct F(bool, bool);
+    impl<'a> Visit<'a> for F {
+        fn visit_expr(&mut self, e: &'a Expr) {
+            match e { Expr::Return(_) => self.0 = true, Expr::Try(_) => self.1 = true, Expr::Closure(_) | Expr::Async(_) => return, _ => {} }
+            syn::visit::visit_expr(self, e);
+        }
+    }
+    let mut f = F(false, false); f.visit_block(b); (f.0, f.1)
+}
+pub fn inline_new_helpers(block: &mut syn::Block, helpers: &std::collections::BTreeMap<String, Helper>, cx: &mut Ctx) {
+    if helpers.is_empty() { return; }
+    // which helper does this expression call (directly; `.await`ed for an async one)?
+    fn callee<'a>(e: &Expr, helpers: &'a std::collections::BTreeMap<String, Helper>) -> Option<(&'a Helper, Vec<Expr>)> {
+        let (inner, awaited) = match e { Expr::Await(a) => (&*a.base, true), other => (other, false) };
+        let (h, args) = match inner {
+            Expr::MethodCall(m) if matches!(&*m.receiver, Expr::Path(p) if p.path.is_ident("self")) => {
+                let h = helpers.get(&m.method.to_string())?; if !h.receiver || m.turbofish.is_some() { return None; }
+                (h, m.args.iter().cloned().collect::<Vec<_>>())
+            }
+            Expr::Call(c) => {
+                let Expr::Path(p) = &*c.func else { return None; };
+                let segs: Vec<String> = p.path.segments.iter().map(|s| s.ident.to_string()).collect();
+                if p.path.segments.iter().any(|s| !s.arguments.is_empty()) { return None; }
+                let name = match segs.as_slice() { [n] => n.clone(), [q, n] if q == "Self" => n.clone(), _ => return None };
+                let h = helpers.get(&name)?; if h.receiver { return None; }
+                (h, c.args.iter().cloned().collect::<Vec<_>>())
+            }
+            _ => return None,
+        };
+        if h.sig.asyncness.is_some() != awaited { return None; }
+        let nparams = h.sig.inputs.iter().filter(|a| matches!(a, syn::FnArg::Typed(_))).count();
+        if nparams != args.len() { return None; }
+        Some((h, args))
+    }
+    fn build(h: &Helper, args: Vec<Expr>) -> Expr {
+        let pats: Vec<syn::Pat> = h.sig.inputs.iter().filter_map(|a| if let syn::FnArg::Typed(pt) = a { Some((*pt.pat).clone()) } else { None }).collect();
+        let stmts = &h.block.stmts;
+        // the parameter types are kept where they can be written at the call site (no generics of the helper itself, no `impl Trait`)
+        let tys: Vec<syn::Type> = h.sig.inputs.iter().filter_map(|a| if let syn::FnArg::Typed(pt) = a { Some((*pt.ty).clone()) } else { None }).collect();
+        let own_generics: Vec<String> = h.sig.generics.params.iter().filter_map(|g| if let syn::GenericParam::Type(t) = g { Some(t.ident.to_string()) } else { None }).collect();
+        let typed = !tys.is_empty() && tys.iter().all(|t| { let txt = t.to_token_stream().to_string(); !txt.contains("impl ") && !txt.contains('\'') && !own_generics.iter().any(|g| txt.split(|c: char| !c.is_alphanumeric() && c != '_').any(|w| w == g)) });
+        if typed && pats.len() == 1 { let p = &pats[0]; let a = &args[0]; let t = &tys[0]; return parse_quote!({ let #p: #t = #a; #(#stmts)* }); }
+        if typed && pats.len() > 1 { return parse_quote!({ let (#(#pats),*): (#(#tys),*) = (#(#args),*); #(#stmts)* }); }
+        if pats.is_empty() { parse_quote!({ #(#stmts)* }) }
+        else if pats.len() == 1 { let p = &pats[0]; let a = &args[0]; parse_quote!({ let #p = #a; #(#stmts)* }) }
+        else { parse_quote!({ let (#(#pats),*) = (#(#args),*); #(#stmts)* }) }
+    }
+    struct V<'a> { helpers: &'a std::collections::BTreeMap<String, Helper>, fired: usize, depth: usize }
+    impl<'a> VisitMut for V<'a> {
+        fn visit_expr_mut(&mut self, e: &mut Expr) {
+            visit_mut::visit_expr_mut(self, e);
+            if self.depth > 3 { return; }
+            if let Some((h, args)) = callee(e, self.helpers) {
+                let (ret, tr) = has_return_or_try(&h.block);
+                if ret || tr { return; }
+                let mut n = build(h, args);
+                self.depth += 1; visit_mut::visit_expr_mut(self, &mut n); self.depth -= 1;
+                *e = n; self.fired += 1;
+            }
+        }
+    }
+    let mut fired = 0usize;
+    // the tail expression of the function: a `?` inside the helper is allowed here
+    if let Some(Stmt::Expr(te, None)) = block.stmts.last_mut() {
+        if let Some((h, args)) = callee(te, helpers) {
+            let (ret, _) = has_return_or_try(&h.block);
+            if !ret { *te = build(h, args); fired += 1; }
+        }
+    }
+    let mut v = V { helpers, fired: 0, depth: 0 };
+    v.visit_block_mut(block);
+    for _ in 0..(fired + v.fired) { cx.fire("H1"); }
+}
